@@ -21,7 +21,11 @@ def dirs(sorts):
     return "[" + "; ".join(DIRS[s["direction"]] for s in sorts) + "]"
 
 
-def pq_items(p, after=False):
+def cid_keys(sorts):
+    return "[" + "; ".join("(%d%%nat, %s)" % (s["column"], DIRS[s["direction"]]) for s in sorts) + "]"
+
+
+def pq_items(p, after=False, dirs=dirs):
     """atomic pipeline JSON -> (coq item list text, token list) ; None if a sub-query From is present"""
     items, toks = [], []
     for t in p:
@@ -75,6 +79,7 @@ def infer_stream(ck, srcs):
     compare with the implementation's PQ *after* it (where Sorts were dropped / emitted)."""
     ans = harness("log", [{"src": s, "target": "sql.sqlite", "want": ["ReprPq"]} for s in srcs])
     exprs, meta = [], []
+    wexprs, wmeta = [], []
     for s, a in zip(srcs, ans):
         pqs = [e["ReprPq"] for e in a.get("entries", []) if "ReprPq" in e]
         if len(pqs) < 2:
@@ -103,6 +108,7 @@ def infer_stream(ck, srcs):
             if m is None:
                 return None
             return cs, m
+        widen_cases(ck, s, before, after, wexprs, wmeta)
         b = pipes(before, False)
         a2 = pipes(after, True)
         if b is None or a2 is None:
@@ -114,6 +120,17 @@ def infer_stream(ck, srcs):
         exprs.append(e)
         meta.append((s, a2))
     header = "From Coq Require Import List Bool.\nFrom PV Require Import Model.Sorts.\nImport ListNotations.\n"
+    wvals = coq_eval(header, wexprs) if wexprs else []
+    for (s, tid, sel_b, sel_a, local), v in zip(wmeta, wvals):
+        sort_cols, widened, kept = v
+        if not all(c in local for c in sort_cols):
+            ck.stat("widen", "inherited-sorting-skipped")      # cids of an inherited sorting are redirected at the From: not modelled
+            continue
+        ck.count("widen", "%s|%d" % (s, tid))
+        ck.stat("widen", "widened" if not kept else "unchanged")
+        if list(widened) != sel_a:
+            ck.disagreement("sort inference: the SELECT of CTE %d after post-processing differs from Model/Sorts.v select_after on %s" % (tid, s.replace("\n", " | ")[:200]),
+                            {"prql": s, "tid": tid, "select_before": sel_b, "implementation": sel_a, "model": list(widened), "sort_cols": list(sort_cols)}, lambda c: None)
     vals = coq_eval(header, exprs) if exprs else []
     for (s, (acs, am)), v in zip(meta, vals):
         ck.count("infer", s)
@@ -123,6 +140,45 @@ def infer_stream(ck, srcs):
         if want != got:
             ck.disagreement("sort inference: implementation's post-processed PQ differs from Model/Sorts.v on %s" % s.replace("\n", " | ")[:200],
                             {"prql": s, "implementation": want, "model": got}, lambda c: None)
+
+
+def widen_cases(ck, src, before, after, exprs, meta):
+    """Tie for Sorts.widen / select_after: for every CTE that is one atomic pipeline, the first Select before post-processing,
+    widened by the columns of the sorting the model computes for that CTE, vs the first Select after post-processing"""
+    def aps(pq):
+        out = []
+        for c in pq.get("ctes", []):
+            ap = None
+            for v in c.get("kind", {}).values():
+                if isinstance(v, dict) and "AtomicPipeline" in v:
+                    ap = v["AtomicPipeline"]
+            out.append((c["tid"], ap))
+        return out
+    bs, as_ = aps(before), aps(after)
+    if [t for t, _ in bs] != [t for t, _ in as_] or any(ap is None for _, ap in bs):
+        return
+    items = []
+    for tid, ap in bs:
+        r = pq_items(ap, False, cid_keys)
+        if r is None:
+            return
+        items.append((tid, r[0]))
+    ctes = "[%s]" % "; ".join("(%d%%nat, [%s])" % (tid, "; ".join(it)) for tid, it in items)
+    K = "(list (nat * bool))"
+    for (tid, apb), (_, apa) in zip(bs, as_):
+        first = lambda ap: next((t["Select"] for t in ap if isinstance(t, dict) and "Select" in t), None)
+        sel_b, sel_a = first(apb), first(apa)
+        if sel_b is None or sel_a is None:
+            continue
+        local = set()
+        for t in apb:
+            if isinstance(t, dict):
+                for sk in (t.get("Sort") or []) if "Sort" in t else (t.get("Take", {}).get("sort") or []) if "Take" in t else []:
+                    local.add(sk["column"])
+        sel = "[%s]" % "; ".join("%d%%nat" % c for c in sel_b)
+        exprs.append("(let cs := fst (run_ctes %s (fun k => match k with [] => true | _ => false end) [] [] %s) in "
+                     "let sc := map fst (sorting %s (lookup %s [] cs %d%%nat)) in (sc, select_after false %s sc, arity_kept false %s sc))" % (K, ctes, K, K, tid, sel, sel))
+        meta.append((src, tid, sel_b, sel_a, local))
 
 
 def flatten_items(pg):
